@@ -47,6 +47,14 @@ TIERS = {
                          run_timeout=120, determinism=256, shrink_budget=240,
                          shrink_timeout=900),
     },
+    'C03': {
+        'quick': dict(runs=1200, workers=16, batch_timeout=900,
+                      run_timeout=180, determinism=24, shrink_budget=90,
+                      shrink_timeout=400),
+        'thorough': dict(runs=40000, workers=16, batch_timeout=10800,
+                         run_timeout=300, determinism=128, shrink_budget=240,
+                         shrink_timeout=900),
+    },
 }
 
 COMMON_ASSUMPTIONS = [
@@ -270,6 +278,38 @@ META = {
             'FlatMie, LeeMie; transmission, emission, direct image',
             'crash consistency of the HDF5 file is not promised by the '
             'property and is not injected',
+        ],
+    },
+    'C03': {
+        'rule': 'one run = one call history on a long-lived TransmissionModel '
+                'built from a seeded subset/ordering of Absorption, CIA, '
+                'Rayleigh, SimpleClouds, FlatMie, LeeMie, H-: model(), '
+                'model(wngrid=sub), model_contrib(), model_full_contrib(), '
+                'store_contributions(), parameter writes (incl. abundance -> 0, '
+                'x2, invalid vectors); after every evaluating op the product '
+                'relations R1-R5 and equality with a fresh model at the same '
+                'parameters (R6) are checked; non-trivial = >= 2 contributions '
+                'or >= 2 species; distinct = distinct (contribution set, add '
+                'order, set of op-kind bigrams)',
+        'probes': ['three_or_more_components', 'evaluate_while_invalid'],
+        'real': ['TransmissionModel (both path methods), SimpleForwardModel '
+                 'model/model_contrib/model_full_contrib/build',
+                 'AbsorptionContribution, CIAContribution, RayleighContribution, '
+                 'SimpleCloudsContribution, FlatMie, LeeMie, HydrogenIon',
+                 'contribute_tau / contribute_cia kernels',
+                 'taurex.util.output.store_contributions', 'TaurexChemistry, '
+                 'ConstantGas'],
+        'stub': ['in-memory opacity and CIA tables'],
+        'assumptions': COMMON_ASSUMPTIONS + [
+            'transmittances are compared to 1e-11 relative, except in layers '
+            'whose full-model row is entirely below exp(-10), where the '
+            'licensed cut-off allows exp(-10) absolute',
+            'proportionality (R5) uses trace abundances <= 5e-7 and -ln T in '
+            '[1e-5, 20], tolerance 2e-4',
+            'a factor common to all components is invisible to these '
+            'relations (C01 ground, not applicable)',
+            'restoration of the contribution list when an exception escapes '
+            'inside the swap window is not demanded (probe only)',
         ],
     },
 }
